@@ -1089,7 +1089,11 @@ impl AppearanceStreamEntry {
 impl ObjectWrite for AppearanceStreamEntry {
     fn to_primitive(&self, update: &mut impl Updater) -> Result<Primitive> {
         match self {
-            AppearanceStreamEntry::Dict(d) => d.to_primitive(update),
+            AppearanceStreamEntry::Dict(d) => match d.to_primitive(update)? {
+                // (an empty map writes as null, which is not an appearance entry)
+                Primitive::Null => Ok(Primitive::Dictionary(Dictionary::new())),
+                p => Ok(p)
+            },
             AppearanceStreamEntry::Single(s) => s.to_primitive(update),
         }
     }
